@@ -136,6 +136,19 @@ func (m *Machine) ufApply(name string, in []*Term, outLen int) []*Term {
 	for i := range out {
 		out[i] = c.Fresh("uf."+name, SBV, 8)
 	}
+	if m.cs().inj {
+		// inputs of another length are distinct inputs
+		pre := fmt.Sprintf("%s/", name)
+		suf := fmt.Sprintf("/%d", outLen)
+		for k2, apps := range m.uf {
+			if k2 == key || !strings.HasPrefix(k2, pre) || !strings.HasSuffix(k2, suf) || strings.Count(k2, "/") != strings.Count(key, "/") {
+				continue
+			}
+			for _, a := range apps {
+				m.pc = append(m.pc, c.Not(termsEqual(c, a.out, out)))
+			}
+		}
+	}
 	for _, a := range m.uf[key] {
 		ein := termsEqual(c, a.in, in)
 		if ein.IsFalse() {
@@ -684,6 +697,20 @@ func registerCrypto(m *Machine) {
 					if s.key == k.id && s.scheme == scheme && len(s.dg) == len(dg) {
 						m.pc = append(m.pc, c.Or(c.Not(termsEqual(c, s.dg, dg)), termsEqual(c, s.sg, sg)))
 					}
+				}
+			}
+			// ideal signatures: values issued under different keys, or for different digests, differ
+			for _, s := range cs.sigs {
+				if len(s.sg) != len(sg) {
+					continue
+				}
+				if s.key != k.id || s.scheme != scheme || len(s.dg) != len(dg) {
+					m.pc = append(m.pc, c.Not(termsEqual(c, s.sg, sg)))
+				} else if !randomised {
+					m.pc = append(m.pc, c.Or(termsEqual(c, s.dg, dg), c.Not(termsEqual(c, s.sg, sg))))
+				} else {
+					// salted: two signing operations never yield the same value
+					m.pc = append(m.pc, c.Not(termsEqual(c, s.sg, sg)))
 				}
 			}
 			cs.sigs = append(cs.sigs, rsaSig{key: k.id, scheme: scheme, dg: dg, sg: sg})
